@@ -3,6 +3,7 @@
 #include "ops_util.h"
 
 #include <algorithm>
+#include <cmath>
 #include <sstream>
 
 namespace simw {
@@ -44,7 +45,7 @@ static const char *kProbeNames[PR_NKINDS] = {
     "self_assign", "self_iadd", "xgrid_call", "xgrid_refused",
     "eqgrid_distinct", "idx_in", "idx_edge", "idx_huge", "idx_wrap",
     "last_owner_task", "msg_sent", "msg_recv", "c03_compared", "sweep_points",
-    "factor_inside", "twin_compared", "pin_taken", "pin_checked"};
+    "factor_inside", "twin_compared", "pin_taken", "pin_checked", "alias_scalar"};
 const char *entry_name(int e) {
   static const char *n[E_N] = {"operator+", "operator-", "operator*", "operator+=", "operator-=", "linearCombination",
                                "BilinearForm", "integrate<n>", "apply(spline-factor operator)", "LinearForm(spline-factor operator)",
@@ -52,7 +53,7 @@ const char *entry_name(int e) {
   return e >= 0 && e < E_N ? n[e] : "?";
 }
 const char *diff_name(int d) {
-  static const char *n[D_N] = {"equal_points_distinct_object", "same_object", "one_point_moved", "extra_point_front",
+  static const char *n[D_N] = {"equal_points_distinct_object", "same_object", "one_point_moved", "one_point_nudged_minimally", "extra_point_front",
                                "extra_point_back", "extra_point_inside", "other"};
   return d >= 0 && d < D_N ? n[d] : "?";
 }
@@ -109,6 +110,16 @@ std::vector<Val> grid_points(const Plan &p, int variant, uint32_t j) {
   }
   std::vector<Val> out;
   for (int64_t v : xs) out.push_back(dy(v, 16));
+  if (variant == 8) {
+    // one point nudged by the smallest representable amount: grids that differ
+    // logically although any tolerance-based comparison would call them equal
+    size_t k = j % out.size();
+#ifdef SIM_EXACT
+    out[k] = out[k] + Val(1) / Val(1099511627776ll);
+#else
+    out[k] = std::nextafter(out[k], k + 1 < out.size() ? out[k + 1] : out[k] + 1.0);
+#endif
+  }
   return out;
 }
 
